@@ -2,7 +2,7 @@
    ONLY statements closed by `exact`, each followed by Print Assumptions. *)
 From Coq Require Import List NArith ZArith Bool Strings.Byte Strings.String.
 Import ListNotations.
-Require Import Params Iauth Line Junk.
+Require Import Params Iauth Line Junk LinesComplete.
 Local Open Scope list_scope.
 
 (* the argument vector never has more entries than slots (16 in iauth_read) *)
@@ -32,3 +32,16 @@ Print Assumptions line_splitting_ignores_chunking.
 Theorem prefix_of_stream_gives_prefix_of_lines : forall p q, exists more, snd (feed [] (p ++ q)) = snd (feed [] p) ++ more.
 Proof. exact prefix_lines. Qed.
 Print Assumptions prefix_of_stream_gives_prefix_of_lines.
+
+(* every complete line is delivered by the time the last chunk has been read, nothing stays pending: neither the total length of
+   the stream nor the size of a chunk (a burst of exactly the read size, say) makes a line wait for further input or get lost *)
+Theorem every_complete_line_is_delivered : forall ls chunks, Forall nolf ls ->
+  List.concat chunks = flat_map (fun l => l ++ [LF]) ls -> feed_all chunks = ([], ls).
+Proof. exact complete_lines_any_chunking. Qed.
+Print Assumptions every_complete_line_is_delivered.
+
+(* a partial last line stays pending and delays none of the complete ones *)
+Theorem a_partial_last_line_delays_nothing : forall ls tail chunks, Forall nolf ls -> nolf tail ->
+  List.concat chunks = flat_map (fun l => l ++ [LF]) ls ++ tail -> feed_all chunks = (tail, ls).
+Proof. exact partial_tail_delays_nothing. Qed.
+Print Assumptions a_partial_last_line_delays_nothing.
